@@ -1,35 +1,97 @@
 /-
-C13, the unspellable classes (KF-C13-b) as general theorems — first level only (`_partial`):
-a child named `''` directly below a root that is not a List/Array has `fq_name()` `/`, which finds
-the root, for EVERY tree, every such child and every start element.  Deeper positions (`/a//b`) and
-the trailing-backslash class (KF-C13-a) need `tokenize` on ill-formed emitted strings and stay
-refuted by one witness each (`C13_full_fails`, `C13_full_fails_backslash`).
+C13, empty path steps at the first level, for EVERY tree (`_partial`: first level only).
+
+Since 05c4adc `fq_name()` emits the empty step for a child of a mapping that has no name (`name is
+None`, stored under the key `None`) AND for one named `''`, with a slash of its own when the step
+comes last: both have `fq_name()` `//` directly below the root.  `find('//')` looks the empty step up
+under the key `None`:
+
+* `find_fq_unnamed`  — an UNNAMED first-level field is found, alone, by its `fq_name()`, from every
+                       start, strict or not (the repaired behaviour);
+* `C13_empty_name_fails_top_partial` — a first-level field NAMED `''` is not (KF-C13-b): the lookup
+                       under `None` raises, or finds the unnamed sibling.
+
+Deeper positions (`/a//b`, `/l/0//`) need `tokenize` on emitted strings with empty segments; there the
+model is tied to the code by correspondence and the Lean runner re-checks `find_fq_iff`'s statement
+(`spellable → (law ↔ addressable)`, unnamed fields included) on every generated tree.
 -/
 import Proofs.C13
 namespace Flatland.C13.Proofs
 open Flatland.Path Flatland.C13.Spec
 
-/-- the `fq_name()` of a first-level child named `''` is the root's -/
-theorem fqName_empty_top (k : Kind) (ky nm : Str) (kids : List Node) (i : Nat) (c : Node)
+/-- the `fq_name()` of a first-level child with the empty step (unnamed, or named `''`) is `//` -/
+theorem fqName_empty_top (k : Kind) (ky : Option Str) (nm : Str) (kids : List Node) (i : Nat) (c : Node)
     (hk : k ≠ .list ∧ k ≠ .array) (hc : kids[i]? = some c) (hn : c.name = []) :
-    fqName (.mk k ky nm kids) [i] = fqName (.mk k ky nm kids) [] := by
+    fqName (.mk k ky nm kids) [i] = ['/', '/'] := by
   have hl : (k == Kind.list) = false := by
     cases k <;> simp_all
   have ha : ∀ (j : Nat) (s : Str), pathSegment (.el k j s) = escapeName s := by
     intro j s; cases k <;> simp_all [pathSegment]
-  simp [fqName, chain, hc, hl, fqParts, ha, hn, escapeName, escapeBody, joinSlash]
+  simp [fqName, chain, hc, hl, fqParts, ha, hn, escapeName, escapeBody, joinSlash, lastEmpty]
 
-/-- **KF-C13-b at the first level, for every tree**: the inverse law fails at every child named `''`
-    of a non-sequence root, from every start element.  (`_partial`: first level only.) -/
-theorem C13_empty_name_fails_top_partial (k : Kind) (ky nm : Str) (kids : List Node) (start : Pos)
-    (i : Nat) (c : Node) (hk : k ≠ .list ∧ k ≠ .array) (hc : kids[i]? = some c) (hn : c.name = []) :
-    isInverseAt (.mk k ky nm kids) start [i] = false := by
+/-- `find('//')`: the root's child stored under the key `None` -/
+theorem find_slash2 (root : Node) (start : Pos) (strict : Bool) :
+    find root start ['/', '/'] false strict =
+      match root.index none with
+      | some j => .many [[j]]
+      | none => if strict then .err .lookup else .many [] := by
+  unfold find
+  rw [tokenize_slash2]
+  have hz : Flatland.C14.Proofs.NoZero [Op.top, Op.name none] = true := by decide
+  have hw := Flatland.C14.Proofs.work_level root strict _ _ (Nat.le_refl _) (Or.inl hz) [start]
+  simp only [List.map_cons, List.map_nil] at hw
+  simp only [evalOps, hw, Flatland.C14.Spec.flatMapM, Flatland.C14.Spec.denOps, indexAt, Node.get?]
+  cases root.index none with
+  | some j => simp
+  | none => cases strict <;> simp
+
+/-- **an unnamed first-level field is found by its `fq_name()`** (05c4adc), in every tree whose root is
+    a mapping holding it under the key `None`, from every start, strict or not -/
+theorem find_fq_unnamed (ky : Option Str) (nm : Str) (kids : List Node) (start : Pos) (strict : Bool)
+    (i : Nat) (c : Node) (hc : kids[i]? = some c) (hn : c.name = [])
+    (hkey : findName none kids = some i) :
+    find (.mk .map ky nm kids) start (fqName (.mk .map ky nm kids) [i]) false strict = .many [[i]] := by
+  rw [fqName_empty_top .map ky nm kids i c (by decide) hc hn, find_slash2]
+  simp [Node.index, Node.kind, Node.kids, hkey]
+
+/-- **KF-C13-b at the first level, for every tree**: a first-level field of a mapping that is NOT the
+    one stored under `None` (e.g. one named `''`, stored under `''`) but emits the empty step breaks the
+    inverse law, from every start element.  (`_partial`: first level only.) -/
+theorem C13_empty_name_fails_top_partial (ky : Option Str) (nm : Str) (kids : List Node) (start : Pos)
+    (i : Nat) (c : Node) (hc : kids[i]? = some c) (hn : c.name = [])
+    (hkey : findName none kids ≠ some i) :
+    isInverseAt (.mk .map ky nm kids) start [i] = false := by
   unfold isInverseAt
-  rw [fqName_empty_top k ky nm kids i c hk hc hn, find_fq _ start [] true rfl]
-  simp
+  rw [fqName_empty_top .map ky nm kids i c (by decide) hc hn, find_slash2]
+  simp only [Node.index, Node.kind, Node.kids]
+  cases hf : findName none kids with
+  | none => simp
+  | some j =>
+    have : j ≠ i := by intro e; subst e; exact hkey hf
+    simp [this]
 
 /-- non-vacuity: the witness of `C13_full_fails` is an instance -/
 example : isInverseAt witnessEmpty [] [0] = false :=
-  C13_empty_name_fails_top_partial .map ['r'] ['r'] _ [] 0 _ (by decide) rfl rfl
+  C13_empty_name_fails_top_partial _ ['r'] _ [] 0 _ rfl rfl (by decide)
+
+/-- the reviewer's tree `Dict.of(Dict.of(String.named('x')), String.named('b'))`: the unnamed inner Dict -/
+def witnessUnnamed : Node :=
+  .mk .map none [] [.mk .map none [] [.mk .scalar (some ['x']) ['x'] []], .mk .scalar (some ['b']) ['b'] []]
+
+/-- non-vacuity of `find_fq_unnamed`: `d[None].fq_name() == '//'` finds exactly `d[None]`, from `d['b']` -/
+example : fqName witnessUnnamed [0] = ['/', '/'] ∧
+    find witnessUnnamed [1] (fqName witnessUnnamed [0]) false true = .many [[0]] :=
+  ⟨by decide, find_fq_unnamed none [] _ [1] true 0 _ rfl rfl (by decide)⟩
+
+/-- what the model emits for the other trees of the repair: `//x`, `/l/0//`, `///y` -/
+example : fqName witnessUnnamed [0, 0] = ['/', '/', 'x'] := by decide
+example : fqName (.mk .map none [] [.mk .list (some ['l']) ['l'] [.mk .map none [] [.mk .map none [] []]]]) [0, 0, 0]
+    = ['/', 'l', '/', '0', '/', '/'] := by
+  simp [fqName, chain, fqParts, pathSegment, joinSlash, lastEmpty, natStr, escapeName, escapeBody, Node.name]
+example : fqName (.mk .map none [] [.mk .map none [] [.mk .map none [] [.mk .scalar (some ['y']) ['y'] []]]]) [0, 0, 0]
+    = ['/', '/', '/', 'y'] := by decide
+/-- the spec's restriction admits unnamed fields and still excludes a field named `''` -/
+example : addressable witnessUnnamed [0, 0] = true ∧ spellable witnessUnnamed [0] = true ∧
+    addressable witnessEmpty [0] = false ∧ spellable witnessEmpty [0] = false := by decide
 
 end Flatland.C13.Proofs
